@@ -12,7 +12,8 @@ P("C26",
              "result is independent of the Go map iteration order (all permutation oracles) after the fix, while the pre-fix "
              "loop is refuted; a checkpoint round trip at any point leaves every later result unchanged. The model is compared "
              "result-for-result with vm.PageTable on every run (several fresh tables per history, and with round trips woven in).",
-  level_note="Trusted: Coq kernel + vm_compute; the Go harness; the hand-written model of pagetable.go / pagetable_checkpoint.go "
+  level_note="c26_model_agreement_implies_property transfers the map refinement to every observed result list. "
+             "Trusted: Coq kernel + vm_compute; the Go harness; the hand-written model of pagetable.go / pagetable_checkpoint.go "
              "(tied by exact equality of every operation result incl. saved DTOs).",
   assumptions=["Go map iteration order = an arbitrary permutation of the keys, chosen afresh for each range statement (oracle)",
                "a *list.Element pointer is modelled by a per-process-table fresh element id",
